@@ -88,7 +88,7 @@ package files
 // ParsePath: one entry per /-separated segment, in order (after a root entry for a leading /);
 // the last segment is a file pattern, the others directory patterns, "wildcard" iff it has a *.
 //@ pred entryFor(e PathEntry, text Str, last Bool) := e.value == text && e.entryType == (last ? (hasRune(text, '*') ? WildcardFile : File) : (hasRune(text, '*') ? WildcardDirectory : Directory))
-//@ func ParsePath [C18 C20]
+//@ func ParsePath [C20]
 //@   effects nocomp stdout [C18]
 //@   noframe
 //@   modifies *
@@ -108,7 +108,7 @@ package files
 // GetFileList, last segment: exactly the entries of the directory that are not directories and
 // whose name matches the pattern, each once, in listing order, as <dir>/<name>.
 //@ pred selected(e Iface, pat Str) := !deIsDir(e) && glob(deName(e), pat)
-//@ func (*Path).GetFileList [C18 C20]
+//@ func (*Path).GetFileList [C20]
 //@   effects nocomp stdout [C18]
 //@   modifies inferred
 //@   requires path != nil && len(path.entries) >= 1 [C20]
